@@ -1,12 +1,12 @@
 SPECIFICATION MCSpecX
 CONSTANTS
   Recs = {1, 2}
-  Obs = {1, 2}
-  Vals = {0, 1, 2}
-  MaxDepth = 5
+  Obs = {1}
+  Vals = {0, 1}
+  MaxDepth = 3
   Extra = {}
-  DB = FALSE
-  Dev = "none"
+  DB = TRUE
+  Dev = "latedeps"
 VIEW MCView
 CONSTRAINT Depth
 INVARIANTS TypeOK GetReflectsCurrent CacheFresh
